@@ -332,6 +332,159 @@ func runC10(p *core.Program, r *core.Report) {
 	a5Check(r, "R6", f)
 	c14R3forFunc(p, r, f)
 	c10R7(p, r, f)
+	c10R8(p, r, f, sw)
+	// R9: the printers remember nothing between values (shared with C11.R7): a type prefix or
+	// nested literal served from a cache keyed by anything but the type's identity belongs to another type
+	dumperStatelessRule(p, r, "R9")
+}
+
+// numClass: signed / unsigned / float class of a reflect kind name or a basic type.
+func numClassOfKind(k string) string {
+	switch {
+	case strings.HasPrefix(k, "int"):
+		return "signed"
+	case strings.HasPrefix(k, "uint"):
+		return "unsigned"
+	case strings.HasPrefix(k, "float"):
+		return "float"
+	}
+	return ""
+}
+
+func numClassOfType(t types.Type) string {
+	b, ok := t.Underlying().(*types.Basic)
+	if !ok {
+		return ""
+	}
+	switch {
+	case b.Info()&types.IsUnsigned != 0:
+		return "unsigned"
+	case b.Info()&types.IsInteger != 0:
+		return "signed"
+	case b.Info()&types.IsFloat != 0:
+		return "float"
+	}
+	return ""
+}
+
+// reflectTypeOperand: the Go type a reflect.Type expression denotes, for
+// reflect.TypeFor[T](), reflect.TypeOf(T(..)) and package-level variables initialised with one.
+func reflectTypeOperand(p *core.Program, f *core.Func, e ast.Expr, depth int) types.Type {
+	info := f.Info()
+	e, _ = core.Resolve(info, f.Root().Body, e)
+	e = ast.Unparen(e)
+	if c, ok := e.(*ast.CallExpr); ok {
+		switch core.CalleeName(info, c) {
+		case "reflect.TypeFor":
+			fun := ast.Unparen(c.Fun)
+			if ix, ok := fun.(*ast.IndexExpr); ok {
+				return info.TypeOf(ix.Index)
+			}
+		case "reflect.TypeOf":
+			if len(c.Args) == 1 {
+				return info.TypeOf(c.Args[0])
+			}
+		}
+		return nil
+	}
+	if v := core.VarOf(info, e); v != nil && v.Pkg() != nil && v.Parent() == v.Pkg().Scope() && depth < 2 {
+		for _, file := range f.Pkg.Syntax {
+			for _, d := range file.Decls {
+				gd, ok := d.(*ast.GenDecl)
+				if !ok {
+					continue
+				}
+				for _, sp := range gd.Specs {
+					vs, ok := sp.(*ast.ValueSpec)
+					if !ok {
+						continue
+					}
+					for i, n := range vs.Names {
+						if info.ObjectOf(n) == types.Object(v) && i < len(vs.Values) {
+							return reflectTypeOperand(p, &core.Func{Pkg: f.Pkg, Name: "<pkginit>", Body: &ast.BlockStmt{}}, vs.Values[i], depth+1)
+						}
+					}
+				}
+			}
+		}
+	}
+	return nil
+}
+
+// c10R8: accessor/kind agreement in the numeric arms. reflect's Int/Uint/Float
+// accessors are only lossless for the kinds of their own class; a Convert to a
+// type of another class (uint64 -> int64) wraps silently, so the printed number
+// is not the value (and may not even fit the literal's type).
+func c10R8(p *core.Program, r *core.Report, f *core.Func, sw *ast.SwitchStmt) {
+	const rule = "R8"
+	r.Floor(rule, 4)
+	info := f.Info()
+	accessorClass := map[string]string{"(reflect.Value).Int": "signed", "(reflect.Value).Uint": "unsigned", "(reflect.Value).Float": "float"}
+	for _, c := range sw.Body.List {
+		cc := c.(*ast.CaseClause)
+		kinds := clauseKinds(info, cc)
+		class := ""
+		mixed := false
+		for _, k := range kinds {
+			kc := numClassOfKind(k)
+			if kc == "" {
+				class = "-"
+				break
+			}
+			if class != "" && class != kc {
+				mixed = true
+			}
+			class = kc
+		}
+		if class == "" || class == "-" {
+			continue
+		}
+		construct := "numeric arm " + strings.Join(kinds, ",") + ": the value is read with the accessor of its own class"
+		if mixed {
+			r.Bad(rule, f, construct, cc.Pos(), "signed, unsigned or float kinds share one arm: no single reflect accessor (and no conversion to one common type) is lossless for all of them")
+			continue
+		}
+		why := ""
+		naccess := 0
+		ast.Inspect(cc, func(n ast.Node) bool {
+			if _, isLit := n.(*ast.FuncLit); isLit {
+				return false
+			}
+			ret, ok := n.(*ast.ReturnStmt)
+			if !ok {
+				return true
+			}
+			for _, res := range ret.Results {
+				o, _ := through(p, operand{f, res}, 0)
+				oinfo := o.F.Info()
+				ast.Inspect(o.E, func(m ast.Node) bool {
+					call, ok := m.(*ast.CallExpr)
+					if !ok {
+						return true
+					}
+					name := core.CalleeName(oinfo, call)
+					if ac, isAcc := accessorClass[name]; isAcc {
+						naccess++
+						if ac != class {
+							why = "`" + core.ExprStr(call) + "` reads a " + class + " kind with the " + ac + " accessor"
+						}
+					}
+					if name == "(reflect.Value).Convert" && len(call.Args) == 1 {
+						t := reflectTypeOperand(p, o.F, call.Args[0], 0)
+						switch {
+						case t == nil:
+							why = "`" + core.ExprStr(call) + "` converts the value to a type the checker cannot resolve"
+						case numClassOfType(t) != class:
+							why = "`" + core.ExprStr(call) + "` converts a " + class + " kind to " + t.String() + ": values outside that type's range wrap silently (an unsigned value >= 1<<63 prints as a negative number)"
+						}
+					}
+					return true
+				})
+			}
+			return true
+		})
+		r.Check(why == "", rule, f, construct, cc.Pos(), itoa(int64(naccess))+" accessor call(s), all of class "+class, why)
+	}
 }
 
 // c10R7: empty-result discipline. ValueLit answers "" for a sub-value that has
